@@ -18,7 +18,8 @@ from ..worlds import build_world
 ID = "C15"
 ENGINE = "eqlmc-E1"
 RULE = ("cases = (family, sub-query conditions, connective, wrapping, position); all combinations listed in cases(); "
-        "non-trivial = expected result neither empty nor everything")
+        "non-trivial = expected result neither empty nor everything"
+        " Wave 7: sub-queries whose own condition is a disjunction / negated conjunction as operands, with only the sub-query's variable selected.")
 ASSUMPTIONS = ["result sets compared (a projected sub-query variable may repeat rows)", "values non-falsy (falsy: C19)"]
 
 GRID = grid_world("D")
